@@ -1,5 +1,76 @@
-/- Line-protocol handler for C01 (stub until the model exists). -/
-import NoulithModel.Common
+/- Line-protocol handler for C01 (and the shared statement parser used by C02).
+Request:  `run <nvars> <stmt> <stmt> …` where a statement token is one of
+  `as:<x>:<rhs>`            x = rhs
+  `si:<x>:<path>:<rhs>`     x[path] = rhs           (path: comma separated ints)
+  `ap:<x>:<path>:<rhs>`     x[path] append= rhs     (path may be empty)
+  `po:<y>:<x>:<path>`       y = pop x[path]
+  `rm:<y>:<x>:<path>:<i>`   y = remove x[path][i]
+  `co:<y>:<x>:<path>`       y = consume x[path]
+  `sw:<x>:<px>:<y>:<py>`    swap x[px], y[py]
+and rhs is `n` | `i<int>` | `v<var>` | `l<atom>,<atom>,…` | `r<atom>*<count>`.
+Response: `<impl>\t<spec>\t<diag>`; impl/spec = `ok d1;d2;…` with one dump per statement,
+`+` (completed) or `!` (raised) followed by the canonical values of all variables joined by `|`;
+diag = the cost ledger `copied/pushes` after every statement. -/
+import NoulithModel.Impl.HeapAbs
+
 namespace Noulith.DriverC01
-def handle (_args : List String) : String := "bad-op"
+open Noulith Noulith.RcHeap
+
+def parsePath (s : String) : Option (List Int) :=
+  if s.isEmpty then some [] else (s.splitOn ",").mapM (·.toInt?)
+
+def parseAtom (s : String) : Option Atom :=
+  if s == "n" then some .null
+  else if s.startsWith "i" then (s.drop 1).toString.toInt?.map Atom.int
+  else if s.startsWith "v" then (s.drop 1).toString.toNat?.map Atom.var
+  else none
+
+def parseRhs (s : String) : Option Rhs :=
+  if s.startsWith "l" then
+    let body := (s.drop 1).toString
+    if body.isEmpty then some (.list []) else ((body.splitOn ",").mapM parseAtom).map Rhs.list
+  else if s.startsWith "r" then
+    match ((s.drop 1).toString.splitOn "*") with
+    | [a, n] => do pure (.rep (← parseAtom a) (← n.toNat?))
+    | _ => none
+  else (parseAtom s).map Rhs.atom
+
+def parseStmt (tok : String) : Option Stmt :=
+  match tok.splitOn ":" with
+  | ["as", x, r] => do pure (.assign (← x.toNat?) (← parseRhs r))
+  | ["si", x, p, r] => do pure (.setIdx (← x.toNat?) (← parsePath p) (← parseRhs r))
+  | ["ap", x, p, r] => do pure (.append (← x.toNat?) (← parsePath p) (← parseRhs r))
+  | ["po", y, x, p] => do pure (.pop (← y.toNat?) (← x.toNat?) (← parsePath p))
+  | ["rm", y, x, p, i] => do pure (.remove (← y.toNat?) (← x.toNat?) (← parsePath p) (← i.toInt?))
+  | ["co", y, x, p] => do pure (.consume (← y.toNat?) (← x.toNat?) (← parsePath p))
+  | ["sw", x, px, y, py] => do pure (.swap (← x.toNat?) (← parsePath px) (← y.toNat?) (← parsePath py))
+  | _ => none
+
+def dump (ok : Bool) (ts : List Store.Tree) : String :=
+  (if ok then "+" else "!") ++ joinWith "|" (ts.map Store.Tree.render)
+
+def runImpl : State → List Stmt → List String × List String
+  | _, [] => ([], [])
+  | s, st :: rest =>
+    let r := step s st
+    let (ds, cs) := runImpl r.1 rest
+    (dump r.2 (abs r.1) :: ds, s!"{r.1.h.copied}/{r.1.h.pushes}" :: cs)
+
+def runSpec : Store.Store → List Stmt → List String
+  | _, [] => []
+  | σ, st :: rest =>
+    let r := Store.step σ st
+    dump r.2 r.1 :: runSpec r.1 rest
+
+def handle (args : List String) : String :=
+  match args with
+  | "run" :: nv :: toks =>
+    match nv.toNat?, toks.mapM parseStmt with
+    | some n, some stmts =>
+      let (ds, cs) := runImpl (State.init n) stmts
+      "ok " ++ joinWith ";" ds ++ "\t" ++ "ok " ++ joinWith ";" (runSpec (Store.Store.init n) stmts)
+        ++ "\t" ++ joinWith ";" cs
+    | _, _ => "bad-op"
+  | _ => "bad-op"
+
 end Noulith.DriverC01
